@@ -641,6 +641,24 @@ pub fn oracle_c09(cfg: &EwCfg, tr: &EwTrace) -> Vec<Violation> {
                 if !got { out.push(viol("C09.flush", "C09.flush".into(), format!("{} called disconnect() in round {} after submitting Reliable packet ch{} #{} ({} B), but the peer saw Disconnect (round {}) without having received it", if dir == 0 { format!("client {}", i) } else { format!("server (for client {})", i) }, call.round, chn, idx, size, disc_ev.round))); }
             }
         }
+        // (d) disconnect_now() on an established connection transmits its request at once ("immediately for disconnect_now()"), whatever was
+        // asked of the connection before (a flushing disconnect() that is still waiting for acknowledgements included): unless the
+        // connection ends within the next two rounds anyway, a disconnect request leaves the caller in the round of the call or the next two
+        for c in tr.calls.iter() {
+            let (side, k) = match c.act { Act::CDisconnectNow(k) if k == i => (0usize, k), Act::SDisconnectNow(k) if k == i => (1, k), _ => continue };
+            let active_before = tr.obs.get(c.round.wrapping_sub(1)).map_or(false, |o| if side == 0 { o.c_active[k] } else { o.s_active[k] }) && c.round > 0;
+            if !active_before { continue; }
+            let evs = if side == 0 { &tr.cev[i] } else { &tr.sev[i] };
+            let ended_soon = evs.iter().any(|e| matches!(e.ev, Ev::Disconnect | Ev::Error(_)) && e.round <= c.round + 2) || c.round + 3 >= tr.rounds;
+            let gone = tr.calls.iter().any(|x| x.round <= c.round + 2 && (matches!(x.act, Act::Forget(j) if j == i && side == 0) || matches!(x.act, Act::SDrop(j) if j == i && side == 1)));
+            if ended_soon || gone { continue; }
+            let me = if side == 0 { caddr(i) } else { saddr() }; let peer = if side == 0 { saddr() } else { caddr(i) };
+            let sent = tr.wire.iter().any(|d| !d.injected && d.src == me && d.dst == peer && matches!(d.frame, Some(Frame::DisconnectFrame(_))) && d.sent_round >= c.round.saturating_sub(1) && d.sent_round <= c.round + 2);
+            let earlier = tr.wire.iter().any(|d| !d.injected && d.src == me && d.dst == peer && matches!(d.frame, Some(Frame::DisconnectFrame(_))) && d.sent_round < c.round);
+            if !sent && !earlier {
+                out.push(viol("C09.now", "C09.now:request-not-transmitted".into(), format!("{} {} called disconnect_now() in round {} on an established connection, but no disconnect request left it in that round or the two that followed (and the connection did not end by itself)", if side == 0 { "client" } else { "server towards client" }, i, c.round)));
+            }
+        }
         // (b) both ends terminate within the retry budget once a disconnect request is on the wire
         let first_disc = tr.wire.iter().filter(|d| !d.injected && (d.src == caddr(i) || d.dst == caddr(i)) && matches!(d.frame, Some(Frame::DisconnectFrame(_)))).map(|d| (d.sent_round, d.t_ms)).next();
         if let Some((r0, _)) = first_disc {
